@@ -171,6 +171,12 @@ def expect_project(proj, options):
                     mark(doc, False, where) if hidden else mark(doc, True, where, exempt=True)
                 for b in d.get("binds", []):
                     mark(b.get("doc"), False, where) if hidden else mark(b.get("doc"), True, where, exempt=True)
+            elif d["d"] == "namelist":
+                # a namelist group has a page of its own: of a procedure that is not documented, nothing is
+                if not shown:
+                    mark(d.get("doc"), False, (where[0], where[1], "namelist of an undisplayed procedure"))
+                else:
+                    mark(d.get("doc"), True, where, exempt=True)
             elif d["d"] == "interface":
                 hidden = internals_asserted_hidden or not shown
                 for b in d.get("bodies", []):
@@ -361,7 +367,7 @@ def expect_project(proj, options):
 
 def gen_case(ch: Chooser, excl=()):
     cfg = {"docs": True, "doc_maker": doc_maker, "late_access": True, "submodules": True, "enums": False,
-           "commons": False, "namelists": False, "blockdata": False, "no_extends": True, "exec_decoys": False,
+           "commons": False, "namelists": "namelists" not in excl, "blockdata": False, "no_extends": True, "exec_decoys": False,
            "bind": False, "excl": tuple(excl)}
     g = gen.Gen(ch, cfg)
     proj = g.project()
